@@ -17,9 +17,8 @@ fn main() {
     assert_eq!(text.matches(import).count(), 1, "expected exactly one `{}` in {}", import, src.display());
     assert!(!text.contains("core::sync::atomic"), "runtime.rs reaches atomics through another path");
     let text = text.replace(import, "use crate::facade::atomic::");
-    for needed in ["fn get_runtime_feature", "pub fn match_uri_vectored", "pub fn match_header_value_vectored", "pub fn match_header_name_vectored"] {
-        assert!(text.contains(needed), "{} not found in {}", needed, src.display());
-    }
+    // (what the harness calls — the three match_*_vectored functions and verif_runtime_feature —
+    // is checked by the compiler: a source without them fails the build of this crate loudly)
     let out = PathBuf::from(env::var("OUT_DIR").unwrap()).join("runtime_subject.rs");
     fs::write(&out, text).unwrap();
 }
